@@ -50,6 +50,15 @@ static void ext5(rfbClientPtr cl) { ext_common(cl, 5); }
 static rfbSecurityHandler exth[NEXT] = {
   { 16, ext2, NULL }, { 30, ext3, NULL }, { rfbSecTypeVncAuth, ext4, NULL }, { rfbSecTypeNone, ext5, NULL } };
 
+/* "tight 1": object 2 is the library's own TightVNC security handler (type 16): reg 2 / unreg 2 call
+ * rfbRegisterTightVNCFileTransferExtension / rfbUnregisterTightVNCFileTransferExtension */
+static int tight_mode = 0;
+static void do_reg(int k, int on) {
+  if (k < 2 || k >= 2 + NEXT) return;
+  if (tight_mode && k == 2) { if (on) rfbRegisterTightVNCFileTransferExtension(); else rfbUnregisterTightVNCFileTransferExtension(); return; }
+  if (on) rfbRegisterSecurityHandler(&exth[k - 2]); else rfbUnregisterSecurityHandler(&exth[k - 2]);
+}
+
 static int hexval(int c) { return c <= '9' ? c - '0' : (c | 32) - 'a' + 10; }
 static size_t unhex(const char *s, unsigned char *out, size_t cap) {
   size_t n = 0;
@@ -155,8 +164,9 @@ static void run_case(char **lines, int nl) {
     while (p && nt < 64) { tok[nt++] = p; p = strtok(NULL, " \t\r\n"); }
     if (!nt) continue;
     if (!strcmp(tok[0], "screen") && nt >= 5) do_screen(tok, nt);
-    else if (!strcmp(tok[0], "reg") && nt == 2) { int k = atoi(tok[1]); if (k >= 2 && k < 2 + NEXT) rfbRegisterSecurityHandler(&exth[k - 2]); obs(); }
-    else if (!strcmp(tok[0], "unreg") && nt == 2) { int k = atoi(tok[1]); if (k >= 2 && k < 2 + NEXT) rfbUnregisterSecurityHandler(&exth[k - 2]); obs(); }
+    else if (!strcmp(tok[0], "reg") && nt == 2) { do_reg(atoi(tok[1]), 1); obs(); }
+    else if (!strcmp(tok[0], "unreg") && nt == 2) { do_reg(atoi(tok[1]), 0); obs(); }
+    else if (!strcmp(tok[0], "tight") && nt == 2) { tight_mode = atoi(tok[1]); obs(); }
     else if (!strcmp(tok[0], "types") && nt == 5) { int i; for (i = 0; i < NEXT; i++) exth[i].type = (uint8_t)atoi(tok[1 + i]); obs(); }
     else if (!strcmp(tok[0], "setfile") && nt == 3) {
       /* the password file of a screen is rewritten (rfbDefaultPasswordCheck reads it at every check) */
